@@ -90,7 +90,21 @@ def session(bindir, rng, tag, tier):
         seq = ["F3", "Down", "F4", "F1"]
         for _ in range(rng.randrange(4, 14)):
             seq.append(rng.choice(["+", "-", "Up", "Down", "Left", "Right", "Enter", "F1", "F3", "F4", "F1", "Tab", "Down", "l", "i", "t", "n"]))
-        for k in seq:
+        # long pans along one axis (the custom centre of each axis is set independently)
+        pans = []
+        for _ in range(rng.randrange(0, 3)):
+            pans.append((rng.choice(("Up", "Down")), rng.randrange(40, 160)))
+            pans.append((rng.choice(("Left", "Right")), rng.randrange(8, 40)))
+        rng.shuffle(pans)
+        pan_at = {rng.randrange(len(seq)): p for p in pans[:2]} if pans else {}
+        for si, k in enumerate(seq):
+            if si in pan_at:
+                rd.send(apps.KEYS["F1"])
+                rd.wait_frames(rd.frame_count() + 1, 3)
+                key, cnt = pan_at[si]
+                rd.send(apps.KEYS[key] * cnt)
+                rd.wait_frames(rd.frame_count() + 3, 3)
+                marks.append(rd.frame_count())
             if rng.random() < 0.15:
                 srv.push(aircraft(rng, rx, rng.randrange(4)))
                 rd.wait_frames(rd.frame_count() + 4, 3)
